@@ -17,6 +17,7 @@ mod physical_keyboard_layouts { include!(concat!(env!("VERIF_REPO_SRC"), "/physi
 mod fancy_layout_interpreting { include!(concat!(env!("VERIF_REPO_SRC"), "/fancy_layout_interpreting.rs")); }
 mod layout_parsing_formatting { include!(concat!(env!("VERIF_REPO_SRC"), "/layout_parsing_formatting.rs")); }
 
+mod loader_probe { include!("loader_probe.rs"); }
 mod struct_ser { include!(concat!(env!("VERIF_REPO_SRC"), "/struct_ser.rs")); }
 mod dev_input_rw {
   include!(concat!(env!("VERIF_REPO_SRC"), "/dev_input_rw.rs"));
@@ -41,6 +42,7 @@ fn main() {
   match args[1].as_str() {
     "explore" => {
       let prop = &args[2]; let secs: f64 = args[3].parse().unwrap(); let seed: u64 = args[4].parse().unwrap();
+      if prop == "C13" || prop == "C14" { std::process::exit(loader_probe::explore(prop, secs, seed)); }
       std::process::exit(key_transforms::explore(prop, secs, seed));
     },
     "c18" => {
@@ -50,6 +52,7 @@ fn main() {
     "replay" => {
       let prop = &args[2];
       let text = std::fs::read_to_string(&args[3]).unwrap();
+      if prop == "C13" || prop == "C14" { std::process::exit(loader_probe::replay(prop, &text)); }
       std::process::exit(key_transforms::replay(prop, &text));
     },
     #[cfg(n2_validation)]
